@@ -43,9 +43,11 @@ initadd(struct initparser *p, struct init *new)
 	struct init **init, *old;
 
 	init = p->last;
-	for (; old = *init; init = &old->next) {
-		if (old->end * 8 - old->bits.after <= new->start * 8 + new->bits.before)
+	while (old = *init) {
+		if (old->end * 8 - old->bits.after <= new->start * 8 + new->bits.before) {
+			init = &old->next;
 			continue;
+		}
 		/* no overlap, insert before `old` */
 		if (new->end * 8 - new->bits.after <= old->start * 8 + old->bits.before)
 			break;
@@ -55,7 +57,16 @@ initadd(struct initparser *p, struct init *new)
 			while (old && old->end * 8 - old->bits.after <= new->end * 8 - new->bits.after);
 			break;
 		}
+		if (old->expr->type->prop & PROPSCALAR) {
+			/*
+			a scalar is not initialized in part: `new` is for
+			another member of a union and replaces `old`
+			*/
+			*init = old->next;
+			continue;
+		}
 		/* `old` covers `new`, keep looking */
+		init = &old->next;
 	}
 	new->next = old;
 	*init = new;
